@@ -14,15 +14,19 @@ NOTE = ("Bounded by the shape box in coverage.bounds. Trusted: the SymKind model
         "against VecKind on every explored path), z3 for unsat answers (sat answers are replayed).")
 checks = {
  "C01": ("S", "compose vs reference pushout up to isomorphism; None iff boundary types differ"),
- "C02": ("S", "strict tensor equals juxtaposition as data; associativity and unit on the nose (lax half: not yet claimed)"),
+ "C02": ("S", "strict tensor equals juxtaposition as data; associativity and unit on the nose ; lax half (lax tier): lax tensor incl. pending pairs equals juxtaposition as data, associativity, unit"),
  "C03": ("S", "associativity, identities, interchange, naturality/self-inverse/hexagons of the symmetry, each decided up to genuine isomorphism"),
- "C04": ("S", "dagger laws, spider accept/reject with symbolic codomains, spider fusion vs cospan composite, identities and symmetries are spiders (strict)"),
+ "C04": ("S", "dagger laws, spider accept/reject with symbolic codomains, spider fusion vs cospan composite, identities and symmetries are spiders; lax half (lax tier): lax identity/twist/singleton/spider/half_spider data, dagger, fusion through strictification"),
  "C05": ("S", "checked constructors on raw 64-bit data accept iff documented conditions; Err variants name a failing condition; results well-formed and typed"),
  "C06": ("S", "finite-function operations vs functions-as-term-vectors; coequalizer minimality via an independent closure; universal map iff constant on fibres"),
  "C08": ("S", "segmented-array operations vs list-of-lists decoding and the size invariant; real iterator next/len/size_hint"),
+ "C10": ("L", "conversions: round trips exact, to_strict panics iff label conflict and otherwise is the quotient; lax compose defined iff types match (unchecked iff arities), results glue the strict meanings; strictification commutes with ; (x) dagger (both sides by the real code, up to iso); in-place tensor/append/coproduct equal the pure forms as data"),
+ "C11": ("L", "every builder call from an arbitrary state vs a list model: returned identifiers, resulting fields, deletion witness, rejection of out-of-range identifiers (serde clause not covered)"),
+ "C13": ("L", "native path: None iff pending unifications; quotiented image isomorphic to the substitution and to the strict path; witness sizes, labels and interface push-through"),
+ "C19": ("L", "forget / forget_monogamous vs substitution with the replace-iff-uniform rule up to iso; scripted Var-builder expressions evaluate to the expression written on symbolic inputs; build fails iff a handle outlives the builder"),
  "C09": ("L", "quotient: fibres = classes of the pending pairs, references mapped, labels of fibres, idempotence, Err iff label conflict and then unchanged"),
- "C12": ("S", "functor application vs generator-wise substitution (six functor families) up to isomorphism; preservation laws (lax half: not yet claimed)"),
- "C14": ("S", "optic image vs substitution with lens-shaped images up to isomorphism; interleaved types; adapted form, its type and monogamy; functoriality"),
+ "C12": ("S", "functor application vs generator-wise substitution (six functor families) up to isomorphism; preservation laws; lax half (lax tier): dyn_functor path on seven lax functor families incl. images with pending unifications"),
+ "C14": ("S", "optic image vs substitution with lens-shaped images up to isomorphism; interleaved types; adapted form, its type and monogamy; functoriality; lax entry points map_arrow/map_adapted (lax tier); the reverse-derivative clause is not yet covered"),
  "C15": ("S", "layering obligations vs dependency / cycle / longest-chain oracle; grouped form"),
  "C16": ("S", "eval vs Jacobi evaluation oracle on symbolic wirings and 64-bit inputs; None iff cyclic; every hyperedge interpreted once"),
  "C17": ("S", "is_acyclic / is_monogamous / degrees vs definitions, in the dev and the release arithmetic profile"),
@@ -31,10 +35,6 @@ checks = {
 }
 NA = {
  "C07": "Kani harnesses of the Vec primitives not built yet in this session (planned: DESIGN.md C07)",
- "C10": "lax-tier check not built yet in this session (planned: DESIGN.md C10 / 3.8)",
- "C11": "lax-tier check not built yet in this session (planned: DESIGN.md C11 / 3.8)",
- "C13": "native lax functor path is VecKind-concrete code whose Vec lengths are data-dependent sums over symbolic node ids: out of reach of Kani (no result at 2 nodes) and invisible to the symbolic ArrayKind backend; see DESIGN.md C13",
- "C19": "lax-tier check not built yet in this session (planned: DESIGN.md C19 / 3.8)",
 }
 import sys
 if len(sys.argv) > 1:
